@@ -423,3 +423,109 @@ def refusal(ctx):
         else:
             ctx.inconclusive.append(f"vacuity: '{lab}' never reached")
     ctx.sample({"paths": E.paths})
+
+
+
+# ---------------------------------------------------------------------------------------
+# O3: the static page tree never places a page outside <output>/page, also when a sub-directory of page_dir is a symbolic link
+# ---------------------------------------------------------------------------------------
+LINK_TARGETS = ["shared_pages", "proj/shared_pages", "top2/more/pages", "top/real_sub"]
+
+
+def _linked_entries(target):
+    from fv.props import c17
+    page = lambda t: c17.TITLED.format(t=t)
+    e = {"top": c17.DIR, "top/index.md": page("Top"), "top/a.md": page("A"), "top/linked": c17.DIR, "top/linked/index.md": page("Linked"),
+         "top/linked/x.md": page("X"), "top/linked/logo.txt": "logo"}
+    # the same files under the link's target (the directory the link points at)
+    cur = ""
+    for part in target.split("/"):
+        cur = (cur + "/" + part) if cur else part
+        e.setdefault(cur, c17.DIR)
+    e.update({target + "/index.md": page("Linked"), target + "/x.md": page("X"), target + "/logo.txt": "logo"})
+    return e
+
+
+def replay_linked_pages(w):
+    """natively: a real directory tree with a real symbolic link, the real get_page_tree (python-markdown stubbed)"""
+    import os
+    import pathlib
+    import posixpath
+    import shutil
+    import tempfile
+    import ford.pagetree as pt
+    from fv.props import c17
+    d = tempfile.mkdtemp(prefix="fvc19-")
+    try:
+        page = lambda t: c17.TITLED.format(t=t)
+        files = {"top/index.md": page("Top"), "top/a.md": page("A"), w["target"] + "/index.md": page("Linked"), w["target"] + "/x.md": page("X"),
+                 w["target"] + "/logo.txt": "logo"}
+        for rel, text in files.items():
+            p_ = os.path.join(d, rel)
+            os.makedirs(os.path.dirname(p_), exist_ok=True)
+            with open(p_, "w") as f:
+                f.write(text)
+        if w["target"] != "top/linked":
+            os.symlink(os.path.join(d, w["target"]), os.path.join(d, "top", "linked"))
+        old = pt.warn
+        pt.warn = lambda *a, **k: None
+        try:
+            node = pt.get_page_tree(pathlib.Path(d) / "top", [], pathlib.Path(d) / "out", c17._MD())
+        finally:
+            pt.warn = old
+        paths = [str(n.path) for n in node]
+    except Exception as e:  # noqa
+        return True, {"link target": w["target"], "ford": "raised " + repr(e)[:200]}
+    finally:
+        shutil.rmtree(d, ignore_errors=True)
+    escaping = [p_ for p_ in paths if posixpath.normpath(p_).startswith("..") or posixpath.isabs(p_)]
+    want = ["a.html", "index.html", "linked/index.html", "linked/x.html"]
+    return bool(escaping) or sorted(paths) != want, {"page_dir/linked is a symbolic link to": w["target"], "pages (relative to <output>/page)": sorted(paths),
+                                                     "pages placed outside <output>/page": escaping, "expected": want}
+
+
+@obligation("C19", "O3.page-tree-stays-inside-the-output-directory", engine="SX(CV)+virtual file system", timeout=600)
+def linked_pages(ctx):
+    """get_page_tree on a page directory one of whose sub-directories is a symbolic link (symbolic target: beside page_dir, two levels up,
+    elsewhere): every page keeps its place below <output>/page (the link's name, not its target, decides)"""
+    import posixpath
+    import ford.pagetree as pt
+    from fv.props import c17
+
+    ctx.encode_fn(pt.get_page_tree)
+    ctx.encode_fn(pt.PageNode.__init__)
+    ctx.bounds.update({"link targets": LINK_TARGETS})
+    ctx.stubs.append("as C17 O1: in-memory page directory with a symbolic-link table; MetaMarkdown.convert stubbed")
+
+    def h(E):
+        tg = CV.choice(E, "target", LINK_TARGETS).concretize()
+        E.e.snapshot = lambda m: {"target": tg}
+        if tg == "top/real_sub":
+            E.assume(False)
+            return
+        entries = _linked_entries(tg)
+        c17.LINKS.clear()
+        c17.LINKS["top/linked"] = tg
+        try:
+            got = c17._run(entries, [])
+        finally:
+            c17.LINKS.clear()
+        E.reachable("built")
+        paths = [g[0] for g in got] if got else []
+        E.require(sorted(paths) == ["a.html", "index.html", "linked/index.html", "linked/x.html"] and
+                  not any(posixpath.normpath(p_).startswith("..") for p_ in paths),
+                  "a page of a symbolically linked sub-directory is placed outside <output>/page (or lost)")
+
+    E = sym.Engine(ctx, max_paths=100, incremental=True)
+    found = E.explore(h)
+    seen = set()
+    for (label, m, pc), snap in zip(found, E.snapshots):
+        if not snap or snap["target"] in seen:
+            continue
+        seen.add(snap["target"])
+        ctx.report(label, snap, replay_linked_pages)
+    if E.reached.get("built"):
+        ctx.twins += 1
+    else:
+        ctx.inconclusive.append("vacuity: page tree never built")
+    ctx.sample({"paths": E.paths})
